@@ -157,6 +157,8 @@ func (Engine) Shrink(plan interface{}, try func(interface{}) bool) interface{} {
 			},
 			func(p *Plan) bool { ok := p.Cap > 0; p.Cap--; return ok },
 			func(p *Plan) bool { ok := p.Callback; p.Callback = false; return ok },
+			func(p *Plan) bool { ok := p.Bystander > 0; p.Bystander = 0; return ok },
+			func(p *Plan) bool { ok := p.MixedKeys; p.MixedKeys = false; return ok },
 		}
 		for _, f := range simpler {
 			c := clonePlan(cur)
